@@ -205,6 +205,18 @@ def _ndarray(check: Check):
     if arr_names:
       ds = tf.defs_for(arr_names[0])
       reb = any(d.kind == 'assign' and d.value is not None and ('newbyteorder' in txt(d.value) or 'byteswap' in txt(d.value)) for d in ds)
+  # the conversion is made for the arrays that need it: the statement that swaps to native order runs where `isnative` is False
+  if normalised and reb:
+    from fjsa.flow import guards_of
+    for nd in tf.cfg.nodes:
+      st_ = nd.ast
+      if nd.kind == 'stmt' and isinstance(st_, ast.Assign) and ('newbyteorder' in txt(st_.value) or 'byteswap' in txt(st_.value)):
+        gs = [(t, pol) for t, pol in guards_of(tf, st_) if 'isnative' in txt(t)]
+        if gs:
+          wrong = any(pol and isinstance(t, ast.Attribute) for t, pol in gs)
+          check.ob('R-PAIR.byteorder', to, f'{txt(st_)[:50]} when not isnative', not wrong,
+                   'the byte-order conversion runs for non-native arrays (running it for native ones only leaves big-endian input '
+                   'unconverted while its dtype name says native)', node=st_, exact=True)
   ok = carries_order or (normalised and reb)
   check.ob('R-PAIR.byteorder', to, f'dtype descriptor {desc}', ok,
            'the descriptor written is dtype.name, which does not record byte order, and the bytes are written as they are: a '
